@@ -1,5 +1,5 @@
 (** C07 — Document store equals last-writer-wins replay, including batch puts. *)
-From Orbit Require Import Spec.Statements Proofs.ReplayProofs Proofs.GlobalProofs Proofs.Glue.
+From Orbit Require Import Spec.Statements Proofs.ReplayProofs Proofs.GlobalProofs Proofs.Glue Spec.GlobalExt Proofs.GlobalExtProofs.
 
 (** With the PUTALL bookkeeping marking each document's key (the tree after the fix),
     every replica's document view represents the replay of PUT / PUTALL / DEL in listing
@@ -38,3 +38,11 @@ Theorem C07_delete_absent_refused :
   forall m f k, represents m f -> f k = None -> doc_delete_allowed m k = false.
 Proof. exact delete_absent_refused. Qed.
 Print Assumptions C07_delete_absent_refused.
+
+(** The same for the extended system with the load routes (load from disk, snapshot). *)
+Theorem C07_doc_refines_replay_all_routes :
+  forall cont acc n dbid g i rs,
+    greach2 true cont acc doc_okop n dbid g -> nth_error (greps g) i = Some rs ->
+    represents (rdoc rs) (doc_replay (values (rlog rs))).
+Proof. exact doc_view2. Qed.
+Print Assumptions C07_doc_refines_replay_all_routes.
